@@ -30,13 +30,17 @@ PROPS["C05"] = dict(
         "background initialisation of the db reader: only its before/after states are modelled (GetAttr(root) before = F13)",
         "os.FileMode.IsRegular is modelled as mode < 2^24 (true for every mode TOCEntry.Stat().Mode() can produce)",
     ],
-    level_text="Coq theorems for all inputs: the db store's attribute codec is the identity on the attributes both stores derive with the same "
-               "function (incl. empty xattrs, NumLink 0=1); for every file whose chunks tile it, the chunk table the db store recomputes from "
-               "neighbouring offsets equals the TOC's and ChunkEntryForOffset agrees at every offset >= 0; TOC digests agree for any decoder "
-               "read-ahead; both stores accept every hardlink-free TOC; for every history of open/close/query on other layers of one database "
-               "a live layer's view is unchanged and open never reuses a live id. The full tree-equality statement is refuted on the faithful "
-               "models by five classes (one vm_compute witness each, each reproduced on the real code as a known finding); tree equality outside "
-               "those classes is NOT proved (open simulation proof) and is covered by the correspondence check + store-vs-store oracle only.",
+    level_text="Coq theorems for all inputs: (1) tree agreement: for every 'simple' TOC (known types, distinct cleaned names in any spelling, "
+               "every entry at top level or below an earlier entry, single-chunk files; any size, depth, attributes, xattrs) both stores accept and "
+               "their complete views are equal (simulation proof between the two-pass and the streaming interpreter); (2) the db attribute codec is the "
+               "identity on the attributes both stores derive with the same function (incl. empty xattrs, NumLink 0=1), and PutVarint/Varint round-trips "
+               "every int64; (3) for every file whose chunks tile it, the chunk table the db store recomputes from neighbouring offsets equals the TOC's "
+               "and ChunkEntryForOffset agrees at every offset >= 0; (4) TOC digests agree for any decoder read-ahead; (5) both stores accept every "
+               "hardlink-free TOC; (6) for every history of open/close/query on other layers of one database a live layer's view is unchanged and open "
+               "never reuses a live id; (7) name cleaning is a normal form. The full statement over all conforming TOCs is refuted on the faithful models "
+               "by five classes (one vm_compute witness each, each reproduced on the real code as a known finding). Tree equality for conforming TOCs "
+               "with implicit parents, repeated directories, explicit root entry, hardlinks, or multi-chunk files inside the walk is NOT proved "
+               "(covered per case by the correspondence check + store-vs-store oracle).",
     level_note="Both interpreters (estargz initFields + metadata/memory; db initNodes/writeAttr/readAttr/readChunks) are hand-modelled in "
                "coq/Model/TreeStores.v and evaluated inside Coq on every generated TOC against the views observed on the real stores. "
                "Eight minimal repairs were made to /repo (patches/C05-fix-1..8), the model follows the repaired code.",
@@ -44,5 +48,5 @@ PROPS["C05"] = dict(
               "executable models against the two real stores; store-vs-store oracle on the real code",
     trusted=["metadata/memory + estargz.initFields and cmd/containerd-stargz-grpc/db are modelled by hand in coq/Model/TreeStores.v; tie = complete "
              "canonical view (path, attrs, xattrs, link count, offset, hardlink identity, openable, ChunkEntryForOffset probes) per store",
-             "tree equality of the two models for conforming TOCs outside the refuted classes is checked per case, not proved"],
+             "tree equality of the two models outside the 'simple' class (implicit parents, repeated dirs, root entry, hardlinks) is checked per case, not proved"],
 )
